@@ -374,7 +374,8 @@ func (e *pathEnv) compute(v ssa.Value) *Path {
 		}
 		return ph
 	case *ssa.Alloc:
-		return e.allocPath(x)
+		// &local where the local is assigned as a whole: name it by the assigned value
+		return e.base(x)
 	case *ssa.ChangeType:
 		return e.of(x.X)
 	case *ssa.Convert:
@@ -437,6 +438,7 @@ func (e *pathEnv) base(v ssa.Value) *Path {
 		if owner != nil && len(owner.allStores(a)) > 0 {
 			return e.load(a)
 		}
+		return e.allocPath(a)
 	}
 	if fv, ok := v.(*ssa.FreeVar); ok {
 		if a, ok := resolveFreeVar(fv).(*ssa.Alloc); ok && a != nil {
